@@ -90,8 +90,12 @@ def run_scenarios_s(ctx, prop, scenarios, proj=FULL_S, max_violations=3, classif
             ctx.coverage["evaluations"] += 1
             try:
                 iobs, im = run_impl_s(sc)
-            except NonLattice:
+            except NonLattice as e:
+                # every amount the unchanged code produces on these configurations is a whole number of quanta (pool sizes and requests are, and the shipped
+                # schedulers only add, subtract, double and take whole tenths): an amount off the lattice cannot be followed by the model -- the tie is broken
                 ctx.sit("discard_non_lattice")
+                if len(ctx.unproved) < 3:
+                    ctx.unproved.append({"kind": "correspondence", "component": "scheduler + executor (layer S): an amount off the model's lattice", "detail": str(e)[:200], "scenario": sc})
                 continue
             mobs = run_model_s(sc, im.order, drv)
             hyp = getattr(drv, "last_hyp", None) or {}
